@@ -25,6 +25,7 @@ func init() {
 			{ID: "R15b", Floor: 5, Doc: "size formulas of counting/teeing loaders agree; offset advance and callback metadata; Dump/Write emission", Run: ruleR15b},
 			{ID: "R15d", Floor: 4, Doc: "every CARv2 header written by the traversal writers follows the pragma / sits at the pragma offset (= R19a)", Run: func(c *Ctx, r *Report) { headerWritesFollowPragma(c, r, map[string]bool{modV2: true, pkgStore: true}) }},
 			{ID: "R15e", Floor: 1, Doc: "TraverseToFile fixes the header up with the same routine that wrote it (options applied identically)", Run: ruleR15e},
+			{ID: "R15f", Floor: 2, Doc: "zero padding is emitted in exactly the announced amount: one Write of a buffer allocated with the padding length, or — when chunked in a loop — every chunk cut to the remaining count", Run: ruleR15f},
 			{ID: "R15c", Floor: 1, Doc: "size-mismatch guard", Run: ruleR15c},
 		},
 	})
@@ -197,7 +198,7 @@ func ruleR15a(c *Ctx, r *Report) {
 			if bad == "" && mu.Block() != disarm.Block() {
 				cut := EdgeSet{}
 				for i := range mu.Block().Succs {
-					cut[Edge{mu.Block(), i}] = true
+					cut[Edge{From: mu.Block(), Succ: i}] = true
 				}
 				if reach(fn, firstWrite.Block(), cut)[disarm.Block()] {
 					bad = "the reader can write a section and disarm without recording the CID in rcrds (e.g. only when an index is wanted): rcrds is also the 'already written' set, so the block is written again the next time it is loaded"
@@ -499,7 +500,111 @@ func ruleR15c(c *Ctx, r *Report) {
 			}
 		}
 	}
-	r.Check(bad == "", key, c.Pos(fn.Pos()), "ErrSizeMismatch exactly on size != 0 && size != written", bad)
+	if bad == "" {
+		// success only through `size == 0` or `size == written`
+		eqE := cmpEdges(fn, isSize, isWritten, "eq")
+		zeroE := cmpEdges(fn, isSize, func(v ssa.Value) bool { k, ok := constInt(v); return ok && k == 0 }, "eq")
+		rs := reach(fn, nil, edgeSet(eqE, zeroE))
+		for _, ret := range returnsOf(fn) {
+			if rs[ret.Block()] && resultIsNilConst(ret, 2) {
+				bad = fmt.Sprintf("the success return at %s is reachable without the announced size having been found equal to the bytes written (or unset): a header announcing another DataSize has already been written by then", c.Pos(ret.Pos()))
+			}
+		}
+	}
+	r.Check(bad == "", key, c.Pos(fn.Pos()), "ErrSizeMismatch exactly on size != 0 && size != written; success only on size == 0 || size == written", bad)
+}
+
+// ruleR15f: zero padding is emitted in exactly the announced amount.
+func ruleR15f(c *Ctx, r *Report) {
+	n := 0
+	for _, fn := range c.RepoFuncs() {
+		if fn.Pkg == nil || fn.Pkg.Pkg.Path() != modV2 {
+			continue
+		}
+		ord := 0
+		eachInstr(fn, func(in ssa.Instruction) {
+			ci, ok := in.(*ssa.Call)
+			if !ok {
+				return
+			}
+			cm := ci.Common()
+			name := ""
+			if cm.IsInvoke() {
+				name = cm.Method.Name()
+			} else if f := calleeFunc(cm); f != nil {
+				name = f.Name()
+			}
+			if name != "Write" || len(cm.Args) == 0 {
+				return
+			}
+			buf := cm.Args[len(cm.Args)-1]
+			// a pure zero buffer: every origin is a make([]byte, N) that nothing is stored into
+			var makes []*ssa.MakeSlice
+			pure := true
+			for _, o := range origins(buf, originOpts{}) {
+				ms, isMake := o.Val.(*ssa.MakeSlice)
+				if !isMake {
+					pure = false
+					continue
+				}
+				makes = append(makes, ms)
+				for _, ref := range *ms.Referrers() {
+					switch x := ref.(type) {
+					case *ssa.IndexAddr:
+						pure = false
+					case *ssa.Call:
+						if x != ci {
+							pure = false // handed to something that may fill it
+						}
+					}
+				}
+			}
+			if !pure || len(makes) == 0 {
+				return
+			}
+			ord++
+			n++
+			key := fmt.Sprintf("padding-write@%s#%d", fnKey(fn), ord)
+			inLoop := false
+			for _, sc := range in.Block().Succs {
+				if reach(fn, sc, nil)[in.Block()] {
+					inLoop = true
+				}
+			}
+			if !inLoop {
+				r.Hold(key, c.Pos(in.Pos()), "one Write of a zero buffer allocated with the padding length")
+				return
+			}
+			// chunked: the slice handed to Write must be cut to the remaining amount
+			sl, isSl := buf.(*ssa.Slice)
+			okTrim := false
+			if isSl && sl.High != nil {
+				for _, o := range origins(sl.High, originOpts{binops: true}) {
+					_ = o
+				}
+				okTrim = len(subtractionsFeeding(sl.High)) > 0 || isMinCall(sl.High)
+			}
+			r.Check(okTrim, key, c.Pos(in.Pos()), "chunked padding, each chunk cut to the remaining count",
+				"zero padding is written in a loop with the whole scratch buffer each time: the last chunk is not cut to the remaining count, so more zero bytes are emitted than the header's DataOffset/IndexOffset announce and payload or index sit later than announced")
+		})
+	}
+	r.Count("zero-buffer writes in package v2", n)
+}
+
+func isMinCall(v ssa.Value) bool {
+	for i := 0; i < 4; i++ {
+		switch x := v.(type) {
+		case *ssa.Convert:
+			v = x.X
+			continue
+		case *ssa.Call:
+			if b, ok := x.Call.Value.(*ssa.Builtin); ok && b.Name() == "min" {
+				return true
+			}
+		}
+		break
+	}
+	return false
 }
 
 func ruleR15e(c *Ctx, r *Report) {
